@@ -1,4 +1,6 @@
 """C01 — BIP32 private child derivation matches the spec for every parent and index."""
+import gc
+
 from hypothesis import strategies as st
 
 from vlib import patch
@@ -150,6 +152,14 @@ def check_path(case, ctx):
                 raise Violation("C01/path/raised", "level %d ckd(%d) raised %r" % (lvl, i, cur))
             compare_node("C01/path", "%s parent, path %s level %d" % (form, R.fmt_path(path), lvl + 1),
                          cur, refs[lvl], p["testnet"])
+        # nothing but the returned node is kept alive (root and intermediate nodes are dropped)
+        if path:
+            st_, lone = call(lambda: dict(impl_parents(p))[form].derive_path(list(path)))
+            gc.collect()
+            if st_ == "exc":
+                raise Violation("C01/path/raised", "derive_path(%r) on a temporary root raised %r" % (path, lone))
+            compare_node("C01/derive_path-temporary-root", "derive_path(%s) from a %s root that is not kept alive"
+                         % (R.fmt_path(path), form), lone, refs[-1], p["testnet"])
         # derive_path on a fresh root gives the same end node
         fresh = dict(impl_parents(p))[form]
         st_, end = call(fresh.derive_path, list(path))
